@@ -168,3 +168,25 @@ package db
 //@ ensures[rejected] result1 != nil && old(err) == nil && old(newDBI) != f.dbi ==> closes[old(newDBI)] == 1
 //@ ensures[same] result1 == nil && old(newDBI) == f.dbi ==> result0 == f && dbInv(f) && !f.destroyable && closes == old(closes)
 //@ ensures[new] result1 == nil && old(newDBI) != f.dbi ==> result0 != nil && result0 != f && result0.dbi == old(newDBI) && dbInv(result0) && !result0.destroyable && closes[old(newDBI)] == 0 && f.destroyable && dbInv(f)
+
+// DB.Reload, the reload goroutine (verified sequentially): it never closes the served backend; a candidate
+// that arrives after the timeout was signalled (destroyNewDbi) is closed exactly once and not published.
+//@ func DB.Reload@goroutine
+//@ region go#0
+//@ updates closes
+//@ ghostret cand int = localDBI
+//@ requires dbInv(f) && closes[f.dbi] == 0 && newDBI == nil
+//@ ensures[served] closes[f.dbi] == 0
+//@ ensures[late] old(destroyNewDbi) && cand != nil && cand != f.dbi ==> closes[cand] == 1 && newDBI == nil
+//@ ensures[publish] !(old(destroyNewDbi) && cand != nil && cand != f.dbi) ==> newDBI == cand && closes == old(closes)
+
+// DB.Reload, the timeout arm: the served DB is returned untouched; a candidate that is already there and
+// is a different backend is closed exactly once, otherwise the goroutine is told to discard it.
+//@ func DB.Reload@timeout
+//@ region select#0/case#0
+//@ updates closes
+//@ requires dbInv(f) && closes[f.dbi] == 0 && (newDBI != nil ==> closes[newDBI] == 0)
+//@ ensures[keeps] result0 == f && result1 == ErrReloadTimeout && closes[f.dbi] == 0
+//@ ensures[early] old(newDBI) != nil && old(newDBI) != f.dbi ==> closes[old(newDBI)] == 1
+//@ ensures[tell] !(old(newDBI) != nil && old(newDBI) != f.dbi) ==> destroyNewDbi
+//@ ensures[tellc] !(old(newDBI) != nil && old(newDBI) != f.dbi) ==> closes == old(closes)
